@@ -39,12 +39,33 @@ PHY_PRE = [
     (r'using layout_t = typename pdu_layout_by_radio< typename LL::radio_t >::pdu_layout;', '', 1),
     (r'fill< layout_t >\( write, \{\s*([^}]*?)\s*\} \);', lambda m: '{ const uint8_t fill_tmp[] = { %s }; ll_fill( *write, fill_tmp, sizeof( fill_tmp ) ); }' % ' '.join(m.group(1).split()), 1),
     (r'\bLL::', '', '+'), (r'\bphy_ll_encoding::', 'phy_ll_encoding_', '+'), (r'layout_t::body\( pdu \)\.first', '( pdu->buffer + 2 )', 1),
-    (r'link_layer\.phy_update\( c_to_p, p_to_c, link_layer\.connection_data_, link_layer \);', 'cb_phy_update( c_to_p, p_to_c );', 1),
+    (r'link_layer\.phy_update\( (\w+), (\w+), link_layer\.connection_data_, link_layer \);', r'cb_phy_update( \1, \2 );', '+'),
     (r'link_layer\.defered_ll_control_pdu_\s*= pdu;', 'self->defered_ll_control_pdu_ = *pdu;', 1), (r'::bluetoe::details::read_16bit\(', 'read_16bit(', 1),
     (r'link_layer\.procedure_timeout_ = delta_time\(\);', 'self->procedure_timeout_ = 0;', '*'), (r'\blink_layer\.', 'self->', '+'), (r'\bcommit = false;', '*commit = false;', '+'),
 ]
+RX_PRE = [
+    (r'\bll_result result = ll_result::go_ahead;', 'enum ll_result result = ll_result_go_ahead;', 1),
+    (r'!defered_ll_control_pdu_\.empty\(\)', '( self->defered_ll_control_pdu_.buffer != 0 || self->defered_ll_control_pdu_.size != 0 )', '*'),
+    (r'(?<![!\w])defered_ll_control_pdu_\.empty\(\)', '( self->defered_ll_control_pdu_.buffer == 0 && self->defered_ll_control_pdu_.size == 0 )', '*'),
+    (r'auto pdu = this->next_ll_l2cap_received\(\)', 'struct wbuf pdu = ll_next_ll_l2cap_received()', 1), (r'pdu = this->next_ll_l2cap_received\(\);', 'pdu = ll_next_ll_l2cap_received();', '+'),
+    (r'const auto llid = layout_t::header\( pdu \) & 0x03;', 'const uint16_t llid = read_16bit( pdu.buffer ) & 0x03;', 1),
+    (r'const auto body = layout_t::body\( pdu \);', 'const struct pair_ptr body = { pdu.buffer + 2, pdu.buffer + pdu.size };', 1),
+    (r'const read_buffer output = this->allocate_ll_transmit_buffer\( maximum_ll_payload_size \);', 'const struct rbuf output = ll_allocate_max_transmit_buffer();', 1),
+    (r'result = handle_ll_control_data\( pdu, output \);', 'result = ll_handle_ll_control_data( self, &pdu, output );', 1),
+    (r'this->free_ll_l2cap_received\(\);', 'll_free_ll_l2cap_received();', '+'),
+    (r'this->handle_l2cap_input\( body\.first, body\.second - body\.first, connection_data_ \)', 'll_handle_l2cap_input( body.first, (size_t)( body.second - body.first ) )', 1),
+    (r'\bstate::', 'state_', '*'), (r'\bll_result::', 'll_result_', '*'),
+    # ghost: the two places where the loop gives up on the PDU at the head of the queue
+    (r'pdu\.size = 0;', '{ G_rx.stuck = true; pdu.size = 0; }', '+'),
+]
+RX_LOOP = dict(header=r'for \( struct wbuf pdu = ll_next_ll_l2cap_received\(\);', contract="""
+    __CPROVER_assigns(pdu, result, G_rx, __CPROVER_object_whole(self))
+    __CPROVER_loop_invariant(RX_INV && (pdu.size != 0 ? (!G_rx.stuck && G_rx.freed < G_rx.total && pdu.size == RX_STRIDE && __CPROVER_same_object(pdu.buffer, G_rxmem) && __CPROVER_POINTER_OFFSET(pdu.buffer) == G_rx.freed * RX_STRIDE)
+                                                      : (G_rx.stuck || G_rx.freed == G_rx.total))
+        && (result == ll_result_go_ahead || result == ll_result_disconnect) && (int)self->state_ == W_state)
+    __CPROVER_decreases((G_rx.total - G_rx.freed) * 2 + (pdu.size != 0 ? 1 : 0))""")
 PHYS = r'struct phy_update_request_impl\s*(?=\{)'
-OPS = ['LL_PHY_RSP', 'LL_PHY_UPDATE_IND', 'LL_CONNECTION_PARAM_REQ', 'LL_VERSION_IND', 'LL_PHY_REQ', 'LL_VERSION_NR', 'll_control_pdu_code', 'connection_ll_response_timeout']
+OPS = ['lld_data_pdu_code', 'LL_PHY_RSP', 'LL_PHY_UPDATE_IND', 'LL_CONNECTION_PARAM_REQ', 'LL_VERSION_IND', 'LL_PHY_REQ', 'LL_VERSION_NR', 'll_control_pdu_code', 'connection_ll_response_timeout']
 EX = dict(llc.BITS_EXTRACTS,
     **{k: dict(kind='expr', file=LL, scope=CLS, locate=r'static constexpr std::uint8_t\s+%s\s*=' % k) for k in OPS},
     company_identifier=llc.EX['company_identifier'], ll_result=llc.EX['ll_result'], ll_state=llc.EX['ll_state'],
@@ -57,6 +78,16 @@ EX = dict(llc.BITS_EXTRACTS,
     timeout=dict(file=LL, locate=T + r'void ' + Q + r'timeout\(\)', pre=PRE),
     end_event=dict(file=LL, locate=T + r'void ' + Q + r'end_event\( connection_event_events evts \)', pre=PRE),
     tpc=dict(file=LL, locate=T + r'void ' + Q + r'transmit_pending_control_pdus\(\)', pre=PRE),
+    received=dict(file=LL, locate=T + r'typename ' + Q + r'll_result ' + Q + r'handle_received_data\(\)', pre=RX_PRE, loops=[RX_LOOP],
+                  rules=[(r'(const uint16_t llid = )', r'{ size_t bt_o = __CPROVER_POINTER_OFFSET(pdu.buffer); BT_GHOST_REBIND(pdu.buffer, G_rxmem + bt_o); } \1', 1)]),
+    pending_phy=dict(file=LL, scope=PHYS, locate=r'bool handle_pending_phy_request\( std::uint8_t opcode, LL& link_layer \)', no_members=True,
+                     pre=[(r'assert\( link_layer\.defered_ll_control_pdu_\.buffer \);', 'BT_ASSERT( self->defered_ll_control_pdu_.buffer != 0 );', 1),
+                          (r'using layout_t = typename pdu_layout_by_radio< typename LL::radio_t >::pdu_layout;', '', 1), (r'\bLL::', '', '+'),
+                          (r'layout_t::body\( link_layer\.defered_ll_control_pdu_ \)\.first', '( self->defered_ll_control_pdu_.buffer + 2 )', 1),
+                          (r'const auto (c_to_p|p_to_c) = static_cast< phy_ll_encoding::phy_ll_encoding_t >\( (pdu_body\[ \d \]) \);', r'const uint8_t \1 = \2;', 2),
+                          (r'link_layer\.defered_ll_control_pdu_ = \{ nullptr, 0 \};', 'self->defered_ll_control_pdu_ = (struct wbuf){ 0, 0 };', 1),
+                          (r'link_layer\.radio_set_phy\(', 'll_radio_set_phy(', '+'),
+                          (r'link_layer\.phy_update\( (\w+), (\w+), link_layer\.connection_data_, link_layer \);', r'cb_phy_update( \1, \2 );', '+')]),
     phy_enc=dict(kind='enum', file='bluetoe/link_layer/include/bluetoe/phy_encodings.hpp', name='phy_ll_encoding_t', rename='phy_ll_encoding'),
     phy_req=dict(file=LL, scope=PHYS, locate=r'bool handle_phy_request\( std::uint8_t opcode, std::uint8_t size, const write_buffer& pdu, read_buffer& write, LL& link_layer, bool& commit \)', pre=PHY_PRE, no_members=True),
     phy_valid=dict(file=LL, scope=PHYS, locate=r'bool valid_phy_encoding\( std::uint8_t c \) const', pre=PHY_PRE[4:5], no_members=True),
@@ -184,14 +215,72 @@ __CPROVER_ensures(!(IS_PHY_IND && W_phy_running) ==> (self->procedure_timeout_ =
 __CPROVER_ensures(!(IS_PHY_REQ || IS_PHY_IND) ==> (!__CPROVER_return_value && G_o.fills == 0 && *commit == W_commit && self->defered_ll_control_pdu_.buffer == 0 && G_o.phy_cb == 0))
 __CPROVER_assigns(__CPROVER_object_whole(self), G_o, *commit)
 {{phy_req}}
+/* ---- handle_pending_phy_request: at its instant the PHY update is applied with the PHYs the indication carried, and reported */
+struct { size_t calls; uint8_t a, b; } G_set_phy;
+static inline void ll_radio_set_phy(uint8_t c_to_p, uint8_t p_to_c) { ++G_set_phy.calls; G_set_phy.a = c_to_p; G_set_phy.b = p_to_c; }
+uint8_t G_pending_mem[8];
+bool handle_pending_phy_request(struct ll* self, uint8_t opcode)
+__CPROVER_requires(__CPROVER_is_fresh(self, sizeof(struct ll)) && __CPROVER_pointer_equals(self->defered_ll_control_pdu_.buffer, &G_pending_mem[0]) && self->defered_ll_control_pdu_.size == 8
+    && G_pending_mem[3] == W_pdu[3] && G_pending_mem[4] == W_pdu[4] && G_set_phy.calls == 0 && G_o.phy_cb == 0 && opcode == W_op)
+__CPROVER_ensures(W_op == LL_PHY_UPDATE_IND ? (__CPROVER_return_value && G_set_phy.calls == 1 && G_set_phy.a == W_pdu[3] && G_set_phy.b == W_pdu[4] && G_o.phy_cb == 1 && G_o.phy_cb_a == W_pdu[3] && G_o.phy_cb_b == W_pdu[4]
+                                        && self->defered_ll_control_pdu_.buffer == 0 && self->defered_ll_control_pdu_.size == 0)
+                                     : (!__CPROVER_return_value && G_set_phy.calls == 0 && G_o.phy_cb == 0 && self->defered_ll_control_pdu_.buffer == &G_pending_mem[0]))
+__CPROVER_assigns(__CPROVER_object_whole(self), G_o, G_set_phy)
+{{pending_phy}}
+/* ---- handle_received_data: the queue of received PDUs (ll_l2cap_sdu_buffer, C19) is a ghost array of RX_MAX PDUs, PDU k at G_rxmem + k * RX_STRIDE; what becomes of PDU k is symbolic:
+        W_tx_ok[k] a transmit buffer for the answer is available, W_def[k] handle_ll_control_data keeps it for its instant, W_disc[k] ... asks for a disconnect, W_l2[k] L2CAP takes it */
+#define RX_MAX 5
+#define RX_STRIDE 8
+struct pair_ptr { const uint8_t* first; const uint8_t* second; };
+enum { ROUTE_NONE = 0, ROUTE_CONTROL, ROUTE_L2CAP };
+struct rx_rec { size_t total, freed, handled; bool order_ok, stuck; uint8_t route[RX_MAX]; } G_rx;
+uint8_t G_rxmem[RX_MAX * RX_STRIDE]; bool W_tx_ok[RX_MAX], W_def[RX_MAX], W_disc[RX_MAX], W_l2[RX_MAX]; size_t G_k;
+#define LLID_OF(k) (G_rxmem[(k) * RX_STRIDE] & 3)
+static inline struct wbuf ll_next_ll_l2cap_received(void) { return G_rx.freed < G_rx.total ? (struct wbuf){ G_rxmem + G_rx.freed * RX_STRIDE, RX_STRIDE } : (struct wbuf){ 0, 0 }; }
+static inline struct rbuf ll_allocate_max_transmit_buffer(void) { return (G_rx.freed < RX_MAX && W_tx_ok[G_rx.freed]) ? (struct rbuf){ G_txmem, 29 } : (struct rbuf){ 0, 0 }; }
+/* a PDU is freed exactly once, right after it - the PDU at the head - was handled */
+static inline void ll_free_ll_l2cap_received(void) { if (!(G_rx.freed < G_rx.total && G_rx.handled == G_rx.freed + 1)) G_rx.order_ok = false; ++G_rx.freed; }
+static inline enum ll_result ll_handle_ll_control_data(struct ll* self, const struct wbuf* pdu, struct rbuf output)
+{ size_t k = G_rx.freed; if (!(k < G_rx.total && k < RX_MAX && G_rx.handled == k && pdu->buffer == G_rxmem + k * RX_STRIDE && output.size != 0)) { G_rx.order_ok = false; return ll_result_go_ahead; }
+  ++G_rx.handled; G_rx.route[k] = ROUTE_CONTROL; if (W_def[k]) self->defered_ll_control_pdu_ = *pdu; return W_disc[k] ? ll_result_disconnect : ll_result_go_ahead; }
+static inline bool ll_handle_l2cap_input(const uint8_t* body, size_t n)
+{ size_t k = G_rx.freed; if (!(k < G_rx.total && k < RX_MAX && G_rx.handled == k && body == G_rxmem + k * RX_STRIDE + 2 && n == RX_STRIDE - 2)) { G_rx.order_ok = false; return false; }
+  if (W_l2[k]) { ++G_rx.handled; G_rx.route[k] = ROUTE_L2CAP; } return W_l2[k]; }
+#define IS_DEFERRED(self) ((self)->defered_ll_control_pdu_.buffer != 0 || (self)->defered_ll_control_pdu_.size != 0)
+/* what holds whenever the loop condition is evaluated */
+#define LAST_CONTROL (G_rx.freed >= 1 && LLID_OF(G_rx.freed - 1) == ll_control_pdu_code)
+#define RX_INV (G_rx.total <= RX_MAX && G_rx.freed <= G_rx.total && G_rx.handled == G_rx.freed && G_rx.order_ok && G_k < RX_MAX \
+    /* every consumed PDU went where its LLID says */ \
+    && (G_k < G_rx.freed ==> G_rx.route[G_k] == (LLID_OF(G_k) == ll_control_pdu_code ? ROUTE_CONTROL : ROUTE_L2CAP)) && (G_k < G_rx.freed ==> (LLID_OF(G_k) == ll_control_pdu_code || (LLID_OF(G_k) == lld_data_pdu_code && W_state != state_disconnecting))) \
+    /* a disconnect / a pending indication comes from the PDU consumed last, and nothing was consumed behind it */ \
+    && ((result == ll_result_disconnect) == (LAST_CONTROL && W_disc[G_rx.freed - 1])) && (IS_DEFERRED(self) == (LAST_CONTROL && W_def[G_rx.freed - 1])) \
+    && (G_k + 1 < G_rx.freed ==> (!W_def[G_k] || LLID_OF(G_k) != ll_control_pdu_code) && (!W_disc[G_k] || LLID_OF(G_k) != ll_control_pdu_code)) \
+    /* the loop gave up on the head PDU only because it cannot be handled now */ \
+    && (G_rx.stuck ==> (G_rx.freed < G_rx.total && (LLID_OF(G_rx.freed) == ll_control_pdu_code ? !W_tx_ok[G_rx.freed] : (LLID_OF(G_rx.freed) != lld_data_pdu_code || W_state == state_disconnecting || !W_l2[G_rx.freed])))))
+enum ll_result handle_received_data(struct ll* self)
+__CPROVER_requires(LL_OK(self) && G_rx.total <= RX_MAX && G_rx.freed == 0 && G_rx.handled == 0 && G_rx.order_ok && !G_rx.stuck && G_k < RX_MAX)
+/* C21: while an indication waits for its instant nothing is consumed - and nothing else stops the processing: */
+__CPROVER_ensures(W_deferred ==> (G_rx.freed == 0 && G_rx.handled == 0 && __CPROVER_return_value == ll_result_go_ahead))
+/* C15: the received PDUs are consumed in order, each exactly once and by the handler its LLID names; a PDU is freed only after it was handled */
+__CPROVER_ensures(!W_deferred ==> (G_rx.total <= RX_MAX && G_rx.freed <= G_rx.total && G_rx.handled == G_rx.freed && G_rx.order_ok
+    && (G_k < G_rx.freed ==> G_rx.route[G_k] == (LLID_OF(G_k) == ll_control_pdu_code ? ROUTE_CONTROL : ROUTE_L2CAP))))
+/* it ends with the queue empty, with the PDU that asked for a disconnect or has to wait for its instant (consumed, nothing behind it is), or at a PDU that cannot be handled now */
+__CPROVER_ensures(!W_deferred ==> (G_rx.freed == G_rx.total || __CPROVER_return_value == ll_result_disconnect || IS_DEFERRED(self) || G_rx.stuck))
+__CPROVER_ensures((!W_deferred && __CPROVER_return_value == ll_result_disconnect) ==> (G_rx.freed >= 1 && W_disc[G_rx.freed - 1]))
+__CPROVER_ensures((!W_deferred && IS_DEFERRED(self)) ==> (G_rx.freed >= 1 && W_def[G_rx.freed - 1]))
+__CPROVER_ensures((!W_deferred && G_rx.stuck) ==> (G_rx.freed < G_rx.total && (LLID_OF(G_rx.freed) == ll_control_pdu_code ? !W_tx_ok[G_rx.freed] : (LLID_OF(G_rx.freed) != lld_data_pdu_code || W_state == state_disconnecting || !W_l2[G_rx.freed]))))
+__CPROVER_assigns(__CPROVER_object_whole(self), G_rx)
+{{received}}
 #define SETUP struct ll* s; W_t = nondet_u32(); W_out_pending = nondet_bool(); W_recv_disconnect = nondet_bool(); W_pending_disconnect = nondet_bool(); W_alloc_ok = nondet_bool(); W_cpr_rsp_pending = nondet_bool(); W_counter_after = nondet_u16(); \
   W_state = nondet_int(); W_proc = nondet_u32(); W_conn_timeout = nondet_u32(); W_interval = nondet_u32(); W_term_sent = nondet_bool(); W_deferred = nondet_bool(); W_instant = nondet_u16(); W_cpr_pending = nondet_bool(); W_phy_pending = nondet_bool(); W_ver_pending = nondet_bool(); W_version_sent = nondet_bool(); W_phy_running = nondet_bool(); \
-  G_o = (struct o_rec){ 0 }; W_op = nondet_u8(); W_size = nondet_u8(); W_pdu[3] = nondet_u8(); W_pdu[4] = nondet_u8(); W_pdu[5] = nondet_u8(); W_pdu[6] = nondet_u8(); W_commit = nondet_bool(); BT_KNOWN_EXCLUDE()
+  G_o = (struct o_rec){ 0 }; W_op = nondet_u8(); W_size = nondet_u8(); W_pdu[3] = nondet_u8(); W_pdu[4] = nondet_u8(); W_pdu[5] = nondet_u8(); W_pdu[6] = nondet_u8(); W_commit = nondet_bool(); G_set_phy.calls = 0; G_rx = (struct rx_rec){ 0 }; G_rx.total = nondet_size(); G_rx.order_ok = true; G_k = nondet_size(); BT_KNOWN_EXCLUDE()
 void h_ll_timeout(void) { SETUP; ll_timeout(s); BT_CANARY(); }
 void h_ll_end_event(void) { SETUP; struct connection_event_events e; ll_end_event(s, e); BT_CANARY(); }
 void h_transmit_pending_control_pdus(void) { SETUP; transmit_pending_control_pdus(s); BT_CANARY(); }
+void h_handle_received_data(void) { SETUP; handle_received_data(s); BT_CANARY(); }
+void h_handle_pending_phy_request(void) { SETUP; handle_pending_phy_request(s, W_op); BT_CANARY(); }
 void h_valid_phy_encoding(void) { valid_phy_encoding(nondet_u8()); BT_CANARY(); }
 void h_handle_phy_request(void) { SETUP; struct wbuf* p; struct rbuf* w; bool* c; handle_phy_request(s, W_op, W_size, p, w, c); BT_CANARY(); }
 '''
-def unit(enforce, **kw):
-    d = dict(name='events', extracts=EX, code=CODE, object_bits=10, enforce=enforce, replace=['valid_phy_encoding'] if 'handle_phy_request' in enforce else []); d.update(kw); return d
+def unit(enforce, name='events', **kw):
+    d = dict(name=name, extracts=EX, code=CODE, object_bits=10, enforce=enforce, replace=['valid_phy_encoding'] if 'handle_phy_request' in enforce else []); d.update(kw); return d
